@@ -172,10 +172,10 @@ class C14(Check):
         # equal arguments share an entry: nothing is evicted before 'evict_all', so a call made after some caller
         # already received a value for the key finds that entry and does not start a computation of its own
         first_ok = {}
+        key_of = {e[1]: e[2] for e in log if e[0] == 'call'}
         for i, e in enumerate(log[:ev]):
-            if e[0] == 'ret' and e[2] == 'ok':
-                k = e[3][0]
-                first_ok.setdefault(k, i)
+            if e[0] == 'ret' and e[2] == 'ok' and e[1] in key_of:
+                first_ok.setdefault(key_of[e[1]], i)
         for i, e in enumerate(log[:ev]):
             if e[0] == 'call' and e[2] in first_ok and i > first_ok[e[2]]:
                 st['calls_after_a_value_was_returned'] += 1
@@ -201,7 +201,7 @@ class C14(Check):
                         res.violate('C14:other-store', 'after its entry was evicted from the supplied mapping a key was '
                                     f'recomputed {len(started)} times instead of exactly once', key=k, value=e[3],
                                     scenario=scen)
-                    elif tuple(e[3]) != (k, started[0][1]):
+                    elif scen.get('result') != 'none' and tuple(e[3]) != (k, started[0][1]):
                         res.violate('C14:wrong-value', 'the call after eviction did not return the fresh value', key=k, value=e[3])
         res.nontrivial = bool(had) and any(c[0] == 'ret' and c[2] in ('cancelled', 'timeout') for c in log)
         if res.nontrivial:
